@@ -3,7 +3,7 @@ from ..oracles import c07
 
 MODELS = ["Aero", "Stress", "Wingbox", "Beam", "BeamTables"]
 STREAMS = [aero_streams.stream_points_and_mesh, aero_streams.stream_eval_mtx, aero_streams.stream_geometry_and_flow, stress.stream_vonmises, jac_wingbox.stream_wingbox_geometry]
-ORACLES = [c07.oracle_aero_mirror, c07.oracle_left_right, c07.oracle_struct_mirror, c07.oracle_wingbox_geometry_mirror, c07.oracle_geometry_full_span, c07.oracle_element_mirror]
+ORACLES = [c07.oracle_aero_mirror, c07.oracle_left_right, c07.oracle_struct_mirror, c07.oracle_wingbox_geometry_mirror, c07.oracle_geometry_full_span, c07.oracle_element_mirror, c07.oracle_inertial_loads_mirror]
 UNPROVED = ["the ELEMENT-level mirror covariance of the stiffness matrix is validated on the implementation (oracle element-matrices-mirror); from it the system-level covariance is proved (C07_structure_assembled_system_mirror_covariant); load-source mirror covariance: oracle only",
             "the end-to-end statement 'all circulations / forces / coefficients of the mirrored configuration are the mirrored ones' is assembled from the proved building blocks by the oracle's mirror pairs, not as one theorem",
             "sweep/dihedral/taper/rotate on right-half meshes: refuted on the real code by the oracle (recorded findings); their Gallina models live under C13"]
